@@ -133,6 +133,15 @@ def generate(rng, tier):
         elif k < 0.88: ev = ["F"]; fam = "writefault"; exp = "SKIP" if (not isq and nm.upper() in ("R", "RB", "BL")) else "FAIL"
         else: ev = ["E", ("L", " " + reply + "  ")]; fam = "padded-reply"
         add([call, ("status",)], [ev, S.nominal(("status",), rng)], "grammar/%s/%s" % ("query" if isq else "command", fam), [exp, "SKIP"])
+    # every request text of the grammar with a fault at the write and at the first read (systematic: which names are exempt from
+    # recording an I/O exception is a fixed, short list - R, RB, BL in any case - and every other name, one letter or two, is not)
+    for isq, texts in ((True, REQS), (False, CMDS)):
+        for body in texts:
+            nm = body[0] if (len(body) == 1 or body[1] == ",") else body[:2]
+            call = ("query" if isq else "command", rng.choice(WS) + body + rng.choice(WS))
+            for fam, ev in (("writefault", ["F"]), ("readfault", ["E", "F"]), ("late-readfault", ["E", "E", "E", "F"])):
+                exp = "SKIP" if nm.upper() in ("R", "RB", "BL") else "FAIL"
+                add([call, ("status",)], [ev, S.nominal(("status",), rng)], "every-name/%s/%s" % ("query" if isq else "command", fam), [exp, "SKIP"])
     # request texts that a formatting layer could mistake for a template (braces, percent signs), each with every kind of bad outcome:
     # whatever is done with the text on the way to the error message, the request fails in the documented way and nothing is raised
     for text, isq in [("ST,{AxiDraw}", False), ("SM,{0},1", False), ("ST,100%d", False), ("SL,{", False), ("ST,50% speed", False), ("ST,%s%s", False), ("ST,%(x)s", False),
